@@ -153,43 +153,90 @@ def _dual(inner, names):
     return Dual()
 
 
-def _inner(make_comp, names):
-    """the component is CONSTRUCTED under one DependencyContext and elaborated under another (the simulator's), and its
-    methods are called by transactions INSIDE the design (a small user module); enables/arguments/results are plain
-    signals: `<name>_en`, `<name>_arg`, `<name>_done`, `<name>_res`"""
+def _inner(make_comp, names, mode="foreign"):
+    """callers are small user modules INSIDE the design, each a separate Elaboratable with its own TModule, calling the
+    component's methods from their own Transactions; enables/arguments/results are plain signals.
+
+    mode "foreign": one caller per method; the component is CONSTRUCTED under one DependencyContext and elaborated under
+                    another (the simulator's).
+    mode "ifelse" : two callers per method; caller 0's transaction sits in the `If` branch of an If/Else of its module,
+                    caller 1's in the `Else` branch of an If/Else of ITS module (conditions `cond` driven independently).
+    mode "switch" : two callers per method; caller 0's transaction in `Case(0)`, caller 1's in `Case(1)` of a Switch of
+                    their own modules (selectors driven independently).
+    Control paths of different modules say nothing about each other: the two callers of an exclusive method conflict."""
     from amaranth import Elaboratable, Signal
     from transactron import TModule, Transaction
     from transactron.utils.dependencies import DependencyContext, DependencyManager
 
-    with DependencyContext(DependencyManager()):  # not the manager the design is elaborated under
+    if mode == "foreign":
+        with DependencyContext(DependencyManager()):  # not the manager the design is elaborated under
+            comp = make_comp()
+    else:
         comp = make_comp()
+    ncall = 1 if mode == "foreign" else 2
+
+    class Caller(Elaboratable):
+        def __init__(self, nm, j):
+            self.nm, self.j = nm, j
+            meth = getattr(comp, nm)
+            self.en = Signal(name=f"{nm}{j}_en")
+            self.cond = Signal(2, name=f"{nm}{j}_cond")  # If condition / Switch selector
+            self.done = Signal(name=f"{nm}{j}_done")
+            self.arg = Signal(meth.layout_in.members["data"], name=f"{nm}{j}_arg") if meth.layout_in.members else None
+            self.res = Signal(meth.layout_out.members["data"], name=f"{nm}{j}_res") if meth.layout_out.members else None  # declared shape
+
+        def active_cond(self):  # value of `cond` that puts the control flow on the transaction's branch
+            return {"foreign": 0, "ifelse": 1 - self.j, "switch": self.j}[mode]
+
+        def trans(self, m):
+            meth = getattr(comp, self.nm)
+            with Transaction(name=f"user_{self.nm}{self.j}").body(m, ready=self.en):
+                res = meth(m, data=self.arg) if self.arg is not None else meth(m)
+                m.d.comb += self.done.eq(1)
+                if self.res is not None:
+                    m.d.comb += _v(self.res).eq(_v(res.data))
+
+        def elaborate(self, platform):
+            m = TModule()
+            if mode == "foreign":
+                self.trans(m)
+            elif mode == "ifelse":
+                if self.j == 0:
+                    with m.If(self.cond[0]):
+                        self.trans(m)
+                    with m.Else():
+                        pass
+                else:
+                    with m.If(self.cond[0]):
+                        pass
+                    with m.Else():
+                        self.trans(m)
+            else:
+                with m.Switch(self.cond):
+                    if self.j == 0:
+                        with m.Case(0):
+                            self.trans(m)
+                        with m.Case(1):
+                            pass
+                    else:
+                        with m.Case(0):
+                            pass
+                        with m.Case(1):
+                            self.trans(m)
+            return m
 
     class User(Elaboratable):
         def __init__(self):
             self.inner = comp
-            self.sig = {}
-            for nm in names:
-                meth = getattr(comp, nm)
-                self.sig[nm] = {"en": Signal(name=f"{nm}_en"), "done": Signal(name=f"{nm}_done")}
-                if meth.layout_in.members:
-                    self.sig[nm]["arg"] = Signal(meth.layout_in.members["data"], name=f"{nm}_arg")
-                if meth.layout_out.members:
-                    self.sig[nm]["res"] = Signal(meth.layout_out.members["data"], name=f"{nm}_res")  # declared result shape
+            self.ncall = ncall
+            self.callers = {nm: [Caller(nm, j) for j in range(ncall)] for nm in names}
 
         def elaborate(self, platform):
             m = TModule()
             m.submodules.inner = self.inner
             for nm in names:
-                meth = getattr(self.inner, nm)
-                sg = self.sig[nm]
-                with Transaction(name=f"user_{nm}").body(m, ready=sg["en"]):
-                    if "arg" in sg:
-                        res = meth(m, data=sg["arg"])
-                    else:
-                        res = meth(m)
-                    m.d.comb += sg["done"].eq(1)
-                    if "res" in sg:
-                        m.d.comb += _v(sg["res"]).eq(_v(res.data))
+                for c in self.callers[nm]:
+                    m.submodules[f"caller_{nm}{c.j}"] = c
             return m
 
     return User()
@@ -197,6 +244,7 @@ def _inner(make_comp, names):
 
 # ------------------------------------------------------------------ implementation runners
 
+INNER_MODES = ("foreign", "ifelse", "switch")
 _sims: dict[tuple, CompSim] = {}
 _prio: dict[tuple, dict] = {}
 
@@ -205,14 +253,15 @@ def _sim(key: tuple) -> CompSim:
     if key not in _sims:
         from transactron.lib.stream import StreamModuleWrapper, StreamSink, StreamSource
 
-        if key[-1] == "inner":
+        if key[-1] in INNER_MODES:
+            mode = key[-1]
             if key[0] == "source":
-                _sims[key] = CompSim(lambda: _inner(lambda: StreamSource(_shape(key[1])), ["write"]))
+                _sims[key] = CompSim(lambda: _inner(lambda: StreamSource(_shape(key[1])), ["write"], mode))
             elif key[0] == "sink":
-                _sims[key] = CompSim(lambda: _inner(lambda: StreamSink(_shape(key[1])), ["read", "peek"]))
+                _sims[key] = CompSim(lambda: _inner(lambda: StreamSink(_shape(key[1])), ["read", "peek"], mode))
             else:
                 _, kind, w, k, ish, osh, _ = key
-                _sims[key] = CompSim(lambda: _inner(lambda: StreamModuleWrapper(_make_mod(kind, w, k, ish, osh)), ["write", "read"]))
+                _sims[key] = CompSim(lambda: _inner(lambda: StreamModuleWrapper(_make_mod(kind, w, k, ish, osh)), ["write", "read"], mode))
         elif key[0] == "source":
             _sims[key] = CompSim(lambda: _dual(StreamSource(_shape(key[1])), ["write"]))
         elif key[0] == "sink":
@@ -234,8 +283,26 @@ def _first_single(tr, a, b):
 def prio(key: tuple) -> dict:
     """which of the two callers the real TransactionManager prefers when both attempt (fixed per elaborated circuit;
     an artefact of the manager's ordering, so it is probed, not predicted)"""
-    if key[-1] == "inner":
+    if key[-1] == "foreign":
         return {"wp": 0, "rp": 0}  # one caller per method
+    if key[-1] in INNER_MODES:
+        if key not in _prio:
+            sim = _sim(key)
+            n = 10
+            both = {"w0": "0", "w1": "0", "r0": "1", "r1": "1", "k0": "0", "k1": "0", "rdy": "0", "v": "1", "p": "0"}
+            lines = _run_inner(key[0], sim, [both] * n)
+            obs = [dict(x.split("=") for x in ln.split()) for ln in lines]
+
+            def first(a, b, is_done):
+                for o in obs:
+                    x, y = is_done(o[a]), is_done(o[b])
+                    if x != y:
+                        return int(y)
+                return 0
+
+            _prio[key] = {"wp": first("w0", "w1", lambda v: v == "1") if key[0] != "sink" else 0,
+                          "rp": first("r0", "r1", lambda v: v != "-") if key[0] != "source" else 0}
+        return _prio[key]
     if key not in _prio:
         sim = _sim(key)
         d = sim.dut.inner
@@ -261,61 +328,88 @@ def _opt(v):
 
 def _key(d: dict) -> tuple:
     k = ("wrap", d["mod"], d["w"], d["k"], d["ish"], d["osh"]) if d["comp"] == "wrap" else (d["comp"], d["shape"])
-    return k + ("inner",) if d.get("inner") else k
+    mode = d.get("inner")
+    if mode is True:
+        mode = "foreign"
+    return k + (mode,) if mode else k
 
 
-def _impl_inner(case: Case, sim: CompSim, ins: list[dict]) -> list[str]:
-    """same observation lines as the two-caller runner; caller 1 does not exist (never attempts)"""
-    d = case.desc
+def _run_inner(comp_kind: str, sim: CompSim, ins: list[dict]) -> list[str]:
+    """drive the in-design callers through their plain signals; same observation lines as the adapter runner.
+    A caller that does not attempt has either its transaction's `ready` low or its control flow on the other branch."""
     user = sim.dut
     comp = user.inner
-    sg = user.sig
+    two = user.ncall == 2
     f = lambda done, v: str(v) if done else "-"  # noqa: E731
+
+    def drive(ctx, k, nm, tok_prefix, is_arg):
+        for c in user.callers[nm]:
+            v = ins[k].get(f"{tok_prefix}{c.j}", "-" if is_arg else "0")
+            att = (v != "-") if is_arg else (v == "1")
+            lower_cond = two and (k + c.j) % 2 == 1  # how a non-attempt is expressed (control structures exist only with two callers)
+            ctx.set(c.en, int(att or lower_cond))
+            ctx.set(c.cond, c.active_cond() if (att or not lower_cond) else 1 - c.active_cond())
+            if is_arg and c.arg is not None:
+                ctx.set(_v(c.arg), int(v) if att else 0)
+
+    def sigs(nm):
+        out = []
+        for c in user.callers[nm]:
+            out += [c.done] + ([_v(c.res)] if c.res is not None else [])
+        return out
+
     lines = []
-    if d["comp"] == "source":
+    if comp_kind == "source":
 
         def pre(ctx, k):
             ctx.set(comp.o.ready, int(ins[k]["rdy"]))
-            ctx.set(sg["write"]["en"], int(ins[k]["w0"] != "-"))
-            ctx.set(_v(sg["write"]["arg"]), 0 if ins[k]["w0"] == "-" else int(ins[k]["w0"]))
+            drive(ctx, k, "write", "w", True)
 
-        tr = sim.run([{}] * len(ins), extra=lambda x: [comp.o.valid, _v(comp.o.payload), comp.write.ready, sg["write"]["done"]], pre_cycle=pre)
+        tr = sim.run([{}] * len(ins), extra=lambda x: [comp.o.valid, _v(comp.o.payload), comp.write.ready, *sigs("write")], pre_cycle=pre)
         for r in tr:
             e = r["_extra"]
-            lines.append(f"valid={e[0]} payload={e[1]} wrdy={e[2]} w0={e[3]} w1=0")
-    elif d["comp"] == "sink":
+            lines.append(f"valid={e[0]} payload={e[1]} wrdy={e[2]} w0={e[3]} w1={e[4] if two else 0}")
+    elif comp_kind == "sink":
 
         def pre(ctx, k):
             ctx.set(comp.i.valid, int(ins[k]["v"]))
             ctx.set(_v(comp.i.payload), int(ins[k]["p"]))
-            ctx.set(sg["read"]["en"], int(ins[k]["r0"]))
-            ctx.set(sg["peek"]["en"], int(ins[k]["k0"]))
+            drive(ctx, k, "read", "r", False)
+            drive(ctx, k, "peek", "k", False)
 
-        tr = sim.run(
-            [{}] * len(ins),
-            extra=lambda x: [comp.i.ready, sg["read"]["done"], _v(sg["read"]["res"]), sg["peek"]["done"], _v(sg["peek"]["res"])],
-            pre_cycle=pre,
-        )
+        tr = sim.run([{}] * len(ins), extra=lambda x: [comp.i.ready, *sigs("read"), *sigs("peek")], pre_cycle=pre)
         for r in tr:
             e = r["_extra"]
-            lines.append(f"rdy={e[0]} r0={f(e[1], e[2])} r1=- k0={f(e[3], e[4])} k1=-")
+            if two:
+                lines.append(f"rdy={e[0]} r0={f(e[1], e[2])} r1={f(e[3], e[4])} k0={f(e[5], e[6])} k1={f(e[7], e[8])}")
+            else:
+                lines.append(f"rdy={e[0]} r0={f(e[1], e[2])} r1=- k0={f(e[3], e[4])} k1=-")
     else:
         mod = comp.module
 
         def pre(ctx, k):
-            ctx.set(sg["write"]["en"], int(ins[k]["w0"] != "-"))
-            ctx.set(_v(sg["write"]["arg"]), 0 if ins[k]["w0"] == "-" else int(ins[k]["w0"]))
-            ctx.set(sg["read"]["en"], int(ins[k]["r0"]))
+            drive(ctx, k, "write", "w", True)
+            drive(ctx, k, "read", "r", False)
 
         tr = sim.run(
             [{}] * len(ins),
             extra=lambda x: [comp.write.ready, mod.i.valid, mod.ip.as_unsigned(), mod.i.ready, mod.o.valid, mod.op, mod.o.ready,
-                             sg["write"]["done"], sg["read"]["done"], _v(sg["read"]["res"])],
+                             *sigs("write"), *sigs("read")],
             pre_cycle=pre,
         )
         for r in tr:
             e = r["_extra"]
-            lines.append(f"wrdy={e[0]} w0={e[7]} w1=0 r0={f(e[8], e[9])} r1=- iv={e[1]} ip={e[2]} ir={e[3]} ov={e[4]} op={e[5]} or={e[6]}")
+            if two:
+                lines.append(f"wrdy={e[0]} w0={e[7]} w1={e[8]} r0={f(e[9], e[10])} r1={f(e[11], e[12])} "
+                             f"iv={e[1]} ip={e[2]} ir={e[3]} ov={e[4]} op={e[5]} or={e[6]}")
+            else:
+                lines.append(f"wrdy={e[0]} w0={e[7]} w1=0 r0={f(e[8], e[9])} r1=- iv={e[1]} ip={e[2]} ir={e[3]} ov={e[4]} op={e[5]} or={e[6]}")
+    return lines
+
+
+def _impl_inner(case: Case, sim: CompSim, ins: list[dict]) -> list[str]:
+    comp = sim.dut.inner
+    lines = _run_inner(case.desc["comp"], sim, ins)
     out = ["ok"]
     it = iter(lines)
     for o in case.ops:
@@ -558,14 +652,14 @@ def _mk_source(rng, shape: str, kind: str, n: int, pw: float, tag="random", inne
         hist.append(valid)
         r = rd(t)
         a0, a1 = _two(rng, pw, 0.4)
-        if inner:
+        if inner in (True, "foreign"):
             a0, a1 = int(rng.random() < pw), 0
         ops.append(f"cyc w0={rng.randrange(1 << w) if a0 else '-'} w1={rng.randrange(1 << w) if a1 else '-'} rdy={r}")
         if (a0 or a1) and (not valid or r):
             valid = 1
         elif r:
             valid = 0
-    key = ("source", shape) + (("inner",) if inner else ())
+    key = ("source", shape) + ((("foreign" if inner is True else inner),) if inner else ())
     return Case(f"cfg comp=source wp={prio(key)['wp']}", ops, {"component": "StreamSource", "comp": "source", "shape": shape, "consumer": kind, "inner": inner}, tag)
 
 
@@ -578,12 +672,12 @@ def _mk_sink(rng, shape: str, n: int, pv: float, pr: float, pk: float, hold: boo
             v, p = int(rng.random() < pv), rng.randrange(1 << w)
         r0, r1 = _two(rng, pr, 0.5)
         k0, k1 = _two(rng, pk, 0.5)
-        if inner:
+        if inner in (True, "foreign"):
             r0, r1, k0, k1 = int(rng.random() < pr), 0, int(rng.random() < pk), 0
         ops.append(f"cyc v={v} p={p} r0={r0} r1={r1} k0={k0} k1={k1}")
         if hold and v and (r0 or r1):
             v = 0  # a protocol-respecting producer holds the item until it is read
-    key = ("sink", shape) + (("inner",) if inner else ())
+    key = ("sink", shape) + ((("foreign" if inner is True else inner),) if inner else ())
     return Case(f"cfg comp=sink rp={prio(key)['rp']}", ops, {"component": "StreamSink", "comp": "sink", "shape": shape, "hold": hold, "inner": inner}, tag)
 
 
@@ -597,10 +691,10 @@ def _mk_wrap(rng, mod: str, w: int, k: int, ish: str, osh: str, n: int, pw: floa
                 r0, r1 = ((1, 0), (0, 1))[rng.randrange(2)]
         else:
             r0, r1 = _two(rng, pr, 0.5)
-        if inner:
+        if inner in (True, "foreign"):
             a0, a1, r0, r1 = int(a0 or a1), 0, int(r0 or r1), 0
         ops.append(f"cyc w0={rng.randrange(1 << w) if a0 else '-'} w1={rng.randrange(1 << w) if a1 else '-'} r0={r0} r1={r1}")
-    key = ("wrap", mod, w, k, ish, osh) + (("inner",) if inner else ())
+    key = ("wrap", mod, w, k, ish, osh) + ((("foreign" if inner is True else inner),) if inner else ())
     pr_ = prio(key)
     return Case(
         f"cfg comp=wrap mod={mod} w={w} k={k} ish={ish} osh={osh} wp={pr_['wp']} rp={pr_['rp']}",
@@ -618,7 +712,7 @@ WRAP_CFGS_T = WRAP_CFGS_Q + [(1, 1, "u1", "u1"), (8, 0, "s8", "u8"), (4, 9, "u4"
 def gen_cases(ctx: Check) -> list[Case]:
     rng = ctx.rng("gen")
     cases: list[Case] = []
-    n = ctx.pick(100, 400)
+    n = ctx.pick(80, 400)
     shapes = ctx.pick(["u1", "u8", "s35"], ["u1", "u4", "u8", "s35"])
     for shape in shapes:
         for kind in READY_KINDS:
@@ -640,6 +734,16 @@ def gen_cases(ctx: Check) -> list[Case]:
             cases.append(_mk_source(rng, shape, kind, n, 0.8, "directed", inner=True))
         cases.append(_mk_sink(rng, shape, n, 0.6, 0.5, 0.5, False, "directed", inner=True))
         cases.append(_mk_sink(rng, shape, n, 0.8, 0.4, 0.7, True, "directed", inner=True))
+    # two competing callers in SEPARATE modules (own TModule each), inside If/Else resp. Switch at different alternatives
+    for mode in ("ifelse", "switch"):
+        for shape in shapes[1:2]:
+            for kind in ("rand", "one", "after_valid"):
+                cases.append(_mk_source(rng, shape, kind, n, 0.9, "directed", inner=mode))
+            cases.append(_mk_sink(rng, shape, n, 0.7, 0.8, 0.6, False, "directed", inner=mode))
+            cases.append(_mk_sink(rng, shape, n, 0.9, 0.6, 0.5, True, "directed", inner=mode))
+        for mod in ctx.pick(("reg", "dup"), ("pass", "reg", "stutter", "dup")):
+            w, k, ish, osh = WRAP_CFGS_Q[1]
+            cases.append(_mk_wrap(rng, mod, w, k, ish, osh, n, 0.9, 0.8, "directed", inner=mode))
     if ctx.thorough:
         # every (write?, write?, ready) history of length <= 4 for the source; every (valid, r0, r1, k0, k1) history of length <= 2
         for L in range(1, 5):
@@ -683,7 +787,7 @@ def nontrivial(case: Case, out: list[str]) -> bool:
     pairs = [(op, o) for op, o in zip(case.ops, out[1:]) if op.startswith("cyc")]
     ins = [_parse(op) for op, _ in pairs]
     obs = [dict(x.split("=") for x in o.split()) for _, o in pairs]
-    if d.get("inner"):
+    if d.get("inner") in (True, "foreign"):
         if d["comp"] == "source":
             return any(o["valid"] == "1" and i["rdy"] == "0" for i, o in zip(ins, obs)) and sum(o["w0"] == "1" for o in obs) >= 3
         return sum(o["r0"] != "-" for o in obs) >= 3
@@ -712,7 +816,8 @@ def run(ctx: Check):
     for comp in ("source", "sink", "wrap"):
         ctx.count(f"cases_{comp}", sum(1 for c in cases if c.desc["comp"] == comp))
     ctx.count("cycles", sum(len(c.ops) for c in cases))
-    ctx.count("cases_constructed_in_foreign_dependency_context", sum(1 for c in cases if c.desc.get("inner")))
+    ctx.count("cases_constructed_in_foreign_dependency_context", sum(1 for c in cases if c.desc.get("inner") in (True, "foreign")))
+    ctx.count("cases_two_callers_in_separate_modules_in_control_structures", sum(1 for c in cases if c.desc.get("inner") in ("ifelse", "switch")))
     ctx.note("which of two simultaneously attempting callers is granted is probed on the real circuit (cfg wp=/rp=); the monitor "
              "accepts either winner")
     if ctx.thorough:
